@@ -542,7 +542,7 @@ const long double TWO_PI = 6.283185307179586476925286766559L;
 
 bool relClose(long double a, long double b, long double tol) {
     long double m = std::max(fabsl(a), fabsl(b));
-    return fabsl(a - b) <= tol * m || (a == b);
+    return fabsl(a - b) <= tol * m || (a == b) || (std::isnan((double) a) && std::isnan((double) b));
 }
 
 // independent text-book values for a defaulted Kh and r0
@@ -562,11 +562,7 @@ Textbook textbook(const CellData& c, char dir) {
 struct Snap {   // everything observable about one connection
     int i, j, k, complnum; Connection::State state; Connection::Direction dir;
     double CF, Kh, r0, rw, skin, wpimult, depth, Ke, connLen; std::size_t sort; bool fromDeck;
-    bool sameAs(const Snap& o) const {
-        return i == o.i && j == o.j && k == o.k && complnum == o.complnum && state == o.state && dir == o.dir &&
-               CF == o.CF && Kh == o.Kh && r0 == o.r0 && rw == o.rw && skin == o.skin && wpimult == o.wpimult &&
-               depth == o.depth && Ke == o.Ke && connLen == o.connLen && sort == o.sort && fromDeck == o.fromDeck;
-    }
+    static bool eq(double a, double b) { return a == b || (std::isnan(a) && std::isnan(b)); }
 };
 std::vector<Snap> snapshot(const WellConnections& cs) {
     std::vector<Snap> v;
@@ -600,7 +596,11 @@ int main(int argc, char** argv) {
     const std::string outdir = argv[4];
     fs::create_directories(outdir);
     omp_set_num_threads(1);     // tiny decks: OpenMP teams only cost time (and the machine is shared)
-    vh::Rng rng(seed);
+    // vh::Rng(seed) and vh::Rng(seed + d) are the same stream d draws apart; hash the seed so that
+    // different seeds really explore different cases
+    uint64_t hs = seed + 0xC06C06C06ull;
+    hs = (hs ^ (hs >> 30)) * 0xBF58476D1CE4E5B9ull; hs = (hs ^ (hs >> 27)) * 0x94D049BB133111EBull; hs ^= hs >> 31;
+    vh::Rng rng(hs);
     const bool thorough = tier == "thorough";
 
     if (mode == "corr") {
@@ -699,8 +699,12 @@ int main(int argc, char** argv) {
                 size_t which = 0;
                 if (conns.size() > 0 && rng.coin(1, 30)) {
                     pert = rng.range(0, 3); which = rng.below(conns.size());
-                    expect = "differs " + std::to_string(which) + " " + PERT_FIELD[pert];
-                    sink.count("seq.negative_control");
+                    const double cfw = conns.get(which).CF();
+                    if (!std::isfinite(cfw) || cfw == 0.0) pert = -1;     // a perturbation would not be visible there
+                    else {
+                        expect = "differs " + std::to_string(which) + " " + PERT_FIELD[pert];
+                        sink.count("seq.negative_control");
+                    }
                 }
                 std::string line = head + " " + std::to_string(nops) + hist + " " + std::to_string(conns.size());
                 size_t idx = 0;
@@ -833,6 +837,7 @@ int main(int argc, char** argv) {
             try { l = load(d.text); }
             catch (const std::exception& e) { std::cerr << "generated deck rejected: " << e.what() << "\n" << d.text; return 3; }
             std::vector<Snap> prev;
+            const long failedBefore = log.failed;
             for (size_t t = 0; t < d.steps.size(); ++t) {
                 const auto cur = snapshot(l->sched->getWell("W1", t).getConnections());
                 const std::string where = "deck=" + std::to_string(n) + " step=" + std::to_string(t) + " ord=" + d.ord;
@@ -844,7 +849,9 @@ int main(int argc, char** argv) {
                     const long double lg = logl((long double) c.r0 / c.rw);
                     const long double lhs = (long double) c.CF * (lg + c.skin), rhs = (long double) c.wpimult * TWO_PI * c.Kh;
                     const long double scale = fabsl((long double) c.CF) * (fabsl(lg) + fabsl((long double) c.skin)) + fabsl(rhs);
-                    if (fabsl(lhs - rhs) > 1e-12L * scale)
+                    // + the rounding of the stored r0, rw themselves: |d ln(r0/rw)| <= 2 ulp whatever its size
+                    // (a Kh = 0 record over several layers can back-compute r0 = rw (1 + 4e-5))
+                    if (fabsl(lhs - rhs) > 1e-12L * scale + 8 * 2.220446049250313e-16L * fabsl((long double) c.CF))
                         log.fail("history.identity", where + " cell=" + snapKey(c) + " lhs=" + num((double) lhs) + " rhs=" + num((double) rhs) + " wpimult=" + num(c.wpimult));
                     log.ok(); ++stats["history.identity.checked"];
                 }
@@ -901,16 +908,23 @@ int main(int argc, char** argv) {
                     if (global) mult *= *global;
                     const bool scaled = anyW || global;
                     if (c.complnum != e.complnum) log.fail("frame.complnum", where + " cell=" + snapKey(o));
-                    bool ok = c.i == e.i && c.j == e.j && c.k == e.k && c.state == e.state && c.dir == e.dir && c.Kh == e.Kh && c.r0 == e.r0 && c.rw == e.rw &&
-                              c.skin == e.skin && c.depth == e.depth && c.Ke == e.Ke && c.connLen == e.connLen && c.fromDeck == e.fromDeck;
-                    if (scaled) ok = ok && relClose(c.CF, (long double) o.CF * mult, 1e-14L) && relClose(c.wpimult, (long double) o.wpimult * mult, 1e-14L);
-                    else ok = ok && c.CF == o.CF && c.wpimult == o.wpimult;
+                    // (NaN == NaN here: r0 <= rw with zero skin gives CF = inf and NaN companions)
+                    bool ok = c.i == e.i && c.j == e.j && c.k == e.k && c.state == e.state && c.dir == e.dir && Snap::eq(c.Kh, e.Kh) && Snap::eq(c.r0, e.r0) && Snap::eq(c.rw, e.rw) &&
+                              Snap::eq(c.skin, e.skin) && Snap::eq(c.depth, e.depth) && Snap::eq(c.Ke, e.Ke) && Snap::eq(c.connLen, e.connLen) && c.fromDeck == e.fromDeck;
+                    // (a WPIMULT that changes no field Connection::operator== compares - CF = inf or 0 - is dropped by
+                    //  Well::updateConnections, multiplier included: wpimult() is only checked for regular CF)
+                    const bool regularCF = std::isfinite(o.CF) && o.CF != 0.0;
+                    if (scaled) ok = ok && relClose(c.CF, (long double) o.CF * mult, 1e-14L) && (!regularCF || relClose(c.wpimult, (long double) o.wpimult * mult, 1e-14L));
+                    else ok = ok && Snap::eq(c.CF, o.CF) && Snap::eq(c.wpimult, o.wpimult);
                     if (!ok) log.fail(scaled ? "frame.wpimult" : (anyO ? "frame.welopen" : "frame.untouched"),
-                                      where + " cell=" + snapKey(o) + " CF " + num(o.CF) + "->" + num(c.CF) + " expected factor " + num((double) mult));
+                                      where + " cell=" + snapKey(o) + " CF " + num(o.CF) + "->" + num(c.CF) + " wpimult " + num(o.wpimult) + "->" + num(c.wpimult) + " expected factor " + num((double) mult) +
+                                      " Kh " + num(o.Kh) + "->" + num(c.Kh) + " r0 " + num(o.r0) + "->" + num(c.r0) + " connLen " + num(o.connLen) + "->" + num(c.connLen) +
+                                      " state " + stateName(o.state) + "->" + stateName(c.state) + " (expected " + stateName(e.state) + ")");
                     log.ok(); ++stats[scaled ? "frame.scaled" : (anyO ? "frame.state-set" : "frame.untouched")];
                 }
                 prev = cur;
             }
+            if (log.failed != failedBefore) vh::spit(outdir + "/failing_history_" + std::to_string(n) + ".DATA", d.text);   // the concrete input
         }
         std::ofstream st(outdir + "/prop_stats.json");
         st << "{\n  \"checked\": " << log.checked << ",\n  \"failed\": " << log.failed;
